@@ -25,10 +25,10 @@ func recordH2(r *hk.Run, o h2obs) {
 	judge(r, obs{Stack: "h2", Spec: h1spec{Name: o.Spec.Name}, Kind: o.Kind, StepName: o.StepName, Racy: o.Racy,
 		Call: o.Call, CallErr: o.CallErr, Body: o.Body, BodyErr: o.BodyErr, Returned: o.Returned, Quiesced: o.Quiesced,
 		Stuck: o.Stuck, Leaked: o.Leaked, ReqBody: o.ReqBody, ReqBodyClosed: o.ReqBodyClosed, ReadsAfter: o.ReadsAfter,
-		FollowOK: o.FollowOK, FollowErr: o.FollowErr, Complete: o.Complete, Harness: o.Harness})
+		FollowOK: o.FollowOK, FollowErr: o.FollowErr, Complete: o.Complete, Harness: o.Harness, PeerFailed: o.PeerFailed})
 	// the peer must be told: a stream whose HEADERS went out and which was not closed on both sides
 	// when the context ended has to be reset (RFC 9113 8.1.1 / 5.4.2), or the peer keeps working on it
-	if o.Harness == "" && o.Returned && o.StreamSeen && !o.Complete && !o.Racy && o.Kind != "none" && !realTimer(o.Kind) && o.Rst != 8 {
+	if o.Harness == "" && o.Returned && o.StreamSeen && !o.Complete && !o.Racy && o.Kind != "none" && !realTimer(o.Kind) && o.Rst != 8 && !o.PeerFailed {
 		r.Fail(hk.Failure{Sig: fmt.Sprintf("no-rst:h2:%s:%s:after=%s", o.Spec.Name, o.Kind, o.StepName),
 			What: fmt.Sprintf("the request's stream was open at the peer when the context ended but no RST_STREAM(CANCEL) arrived (rst code %d)", o.Rst), Input: o})
 	}
@@ -93,8 +93,9 @@ func emitH2(o h2obs) string {
 	if cause2(o.Kind) != "" {
 		inj = []string{cause2(o.Kind)}
 	}
+	inj = append(inj, o.Post...) // what the epilogue makes happen
 	ob := fmt.Sprintf("(mkObs2 %s %s %s %s %s)", call, body, rst, hk.CoqBool(o.ReqBody), hk.CoqBool(o.ReqBodyClosed))
-	return fmt.Sprintf("H2Case %s %s %s %s %s %s", hk.CoqBool(o.Spec.Upload), hk.CoqBool(realTimer(o.Kind)),
+	return fmt.Sprintf("H2Case %s %s %s %s %s %s", hk.CoqBool(o.Spec.Upload || o.Spec.Stalled), hk.CoqBool(realTimer(o.Kind)),
 		coqLabels(o.Pre), coqLabels(o.RacyLab), coqLabels(inj), ob)
 }
 
@@ -292,7 +293,8 @@ func judge(r *hk.Run, o obs) {
 			} else if !bodyIdentifies(o) {
 				fail("wrong-error", "pending body read failed with an error that does not identify the cancellation/timeout: "+o.BodyErr)
 			}
-		} else if !callIdentifies(o) {
+		} else if !callIdentifies(o) && !o.PeerFailed {
+			// (after a reset by the peer the call may report that failure: what counts then is that it returns)
 			fail("wrong-error", "call failed with an error that does not identify the cancellation/timeout: "+o.CallErr)
 		}
 	case inflight && o.Racy:
